@@ -81,6 +81,15 @@ func c13Oracle(p *Plan) *Verdict {
 		f["field"] = "body-error"
 		v.violate("request-changed", f, "body end: client ended cleanly=%v, handler saw error %q", clean, b.ReadErr)
 	}
+	if len(rc.Client.ReqTrailers) > 0 && clean && b.ReadErr == "" && len(want) > 0 {
+		// request trailers: the handler read the body to its clean end, so the values the client sent after it are there
+		v.probe("request-trailers")
+		if d := diffMeta(metaMultimap(rc.Client.ReqTrailers), b.ReqTrailers); d != "" {
+			f := copyFacts(facts)
+			f["field"] = "trailer"
+			v.violate("request-changed", f, "request trailers after the body was read to its end: %s", d)
+		}
+	}
 	// response direction
 	if rc.Client.WriterFailAfter > 0 || rc.Client.CancelAtStep > 0 {
 		return v
@@ -129,7 +138,7 @@ func init() {
 		Level: "exploration",
 		Rule: "two seeded classes: (pass-through) a request whose protocol, codec and compression the service accepts, with arbitrary extra headers, other legal spellings of the content type, query string, declared content length and body bytes that need not be valid in the protocol, GETs also under small URL limits; " +
 			"(unknown) a request for a path no endpoint matches, or a well-formed RPC for a method without REST binding on a REST-only service, with the unknown-endpoint handler installed; the downstream handler answers with an arbitrary status, header set, body, trailers and flush pattern; " +
-			"all delivery segmentations, read sizes, body cuts and connection errors. oracle: method, URL (path, raw path, raw query), protocol version, host, request-URI, header multimap, ContentLength, body bytes and body error at the handler equal what the client sent; " +
+			"all delivery segmentations, read sizes, body cuts and connection errors. oracle: method, URL (path, raw path, raw query), protocol version, host, request-URI, header multimap, ContentLength, body bytes and body error at the handler equal what the client sent, and so do request trailers once the handler has read the body to its end (a quarter of the runs send some; their values arrive after the body, as with net/http); " +
 			"status, headers, body, trailers and flush count at the client equal what the handler wrote. distinct = (class, client form, schedule hash); non-trivial = the downstream handler was invoked",
 		Gen: func(c *Chooser, tier string) *Plan {
 			kind := Pick(c, "passthrough", "passthrough", "unknown")
@@ -207,6 +216,13 @@ func init() {
 			}
 			if c.Prob(0.2) {
 				rc.Faults = []Fault{{Kind: Pick(c, "cut-eof", "cut-err"), At: c.Intn(30)}}
+			}
+			if c.Prob(0.25) && len(rc.Faults) == 0 {
+				// request trailers (any client may send them; their values exist only once the body has been read)
+				rc.ReqTrailers = [][2]string{{"X-Body-Checksum", "crc32:" + string(rune('a'+c.Intn(26)))}}
+				if c.Bool() {
+					rc.ReqTrailers = append(rc.ReqTrailers, [2]string{Pick(c, "X-Body-Checksum", "X-Signature"), "v2"})
+				}
 			}
 			p.RPCs[0].Passthrough = true
 			bp := &p.RPCs[0].Backend
